@@ -2,6 +2,7 @@ pub mod c02;
 pub mod c05;
 pub mod c06;
 pub mod c07;
+pub mod c08;
 pub mod c09;
 pub mod c10;
 pub mod c11;
@@ -13,7 +14,7 @@ pub mod treecheck;
 use crate::core::Check;
 
 pub fn registry() -> Vec<&'static dyn Check> {
-    vec![&session::C01, &c02::C02, &session::C04, &c05::C05, &c06::C06, &c07::C07, &c09::C09, &c10::C10, &c11::C11, &c12::C12, &c13::C13]
+    vec![&session::C01, &c02::C02, &session::C04, &c05::C05, &c06::C06, &c07::C07, &c08::C08 { threads_only: false }, &c08::C08 { threads_only: true }, &c09::C09, &c10::C10, &c11::C11, &c12::C12, &c13::C13]
 }
 
 pub fn find(id: &str) -> Option<&'static dyn Check> {
